@@ -325,8 +325,10 @@ class RequestWideSearchContext(object):
     def copy_arr_if_needed(self, arr):
         """Copy or return arr, depending on the search context.
 
-        In cases with group_policy=none where multiple groups request
-        amounts from the same resource class, we end up using the same
+        In cases where multiple groups request amounts from the same
+        resource class (with any group_policy: the unsuffixed group may share
+        a provider with a suffixed one also under "isolate" or without a
+        policy), we end up using the same
         AllocationRequestResource more than once when consolidating. So we
         need to make a copy so we don't overwrite the one used for a
         different result. But as an optimization, since this copy is not
@@ -336,8 +338,6 @@ class RequestWideSearchContext(object):
                 returned.
         :return: arr or a copy thereof.
         """
-        if self.group_policy != 'none':
-            return arr
         if arr.resource_class in self.multi_group_rcs:
             return copy.copy(arr)
         return arr
